@@ -2128,3 +2128,7 @@ Proof. apply composes_decomp. destruct op; [apply sumZ_composes|apply agg_max_co
 (** the mean does NOT compose: the mean of the block means is not the mean of everything *)
 Lemma agg_mean_not_composes : ~ AggComposes agg_mean.
 Proof. intros H. specialize (H [[1]; [3; 5]] ltac:(repeat constructor; discriminate)). vm_compute in H. discriminate. Qed.
+
+(** the UNGUARDED law (empty blocks allowed) is false for max/min: agg [] is a default value *)
+Lemma agg_max_unguarded_refuted : exists Gs, agg_max (map agg_max Gs) <> agg_max (concat Gs).
+Proof. exists [[]; [-5]]. vm_compute. discriminate. Qed.
